@@ -33,6 +33,7 @@ import SqiGen.EvenGuard
 import SqiModel.SkelEven
 import SqiProofs.SkelEvenSim
 import SqiProofs.SkelSmallSim
+import SqiProofs.SkelEvenConv
 
 set_option maxRecDepth 100000
 
@@ -166,6 +167,20 @@ theorem translated_even_strategy_refines (T : List (List Nat)) (tpep len M fuel 
         (SqiGen.ChainSkel.EvenSt.init (SqiModel.SkelEven.OSt.init len)))
       (evalEven T tpep len) :=
   skel_refines T tpep len oracle fuel pl M H he
+
+open SqiProofs.SkelEvenSim in
+/-- **the tie is an equivalence on the fault status**: under the side conditions `Hyp` (row exists, bounds) the run of the
+    translated skeleton is fault-free iff the hand model is (`SqiProofs.SkelEvenConv`: converse simulation, one "dies"
+    lemma per fault site of the hand model: `push_dead`, `strat_dead`, `while_dead`, `iso_dead_slot`, `iso_dead_xd`,
+    `iter_dead`, `for_dead`, `skel_dead`).  Together with `translated_even_strategy_refines` (same final state and kernel
+    orders when fault-free) the kernel-evaluated `skeleton_agrees_small` is redundant for the strategy routine except for
+    the array-access `log`. -/
+theorem translated_even_strategy_fault_iff (T : List (List Nat)) (tpep len M fuel : Nat) (oracle : Nat → Bool) (pl : Int)
+    (H : Hyp T tpep len M fuel) (htl : T.length + len ≤ 18446744073709551616) (hfu1 : 1 ≤ fuel) :
+    let k := SqiGen.ChainSkel.ec_eval_even_strategy SqiModel.SkelEven.obs T tpep oracle fuel len pl
+        (SqiGen.ChainSkel.EvenSt.init (SqiModel.SkelEven.OSt.init len))
+    (k.fault = none ∧ k.obs.bad = false) ↔ (evalEven T tpep len).err = none :=
+  SqiProofs.SkelEvenConv.skel_live_iff T tpep len oracle fuel pl M H htl hfu1
 
 open SqiProofs.SkelEvenSim in
 /-- `even_strategy_sound` transferred to the translated text -/
